@@ -19,7 +19,8 @@ from .checks import Bad, Snap
 
 NAME = "lineage"
 PROPS = {"C12", "C13", "C18"}
-CELL_CAP = 2500
+CELL_CAP = 1200
+FACET_TAG_CAP = 300
 ADAPTIVE = {"MeshLine1", "MeshTri1", "MeshTet1", "MeshTri2", "MeshTet2"}
 UNIFORM = {"MeshLine1", "MeshTri1", "MeshQuad1", "MeshTet1", "MeshHex1",
            "MeshTri2", "MeshQuad2", "MeshTet2", "MeshHex2"}
@@ -251,8 +252,15 @@ def _check_tags_against_model(st, probes, where):
                     abs(m - meas) > 1e-12 * sc:
                 raise Bad("tags-boundary-measure-differs", name=name,
                           model=meas, mesh=m, after=where)
+            if polys:
+                cen = np.array([P.mean(axis=0) for P in polys])
+                rad = np.array([np.linalg.norm(P - P.mean(axis=0), axis=1).max()
+                                for P in polys])
             for x in st.bnd_samples[name]:
-                if not any(G.dist_point_facet(x, P) <= K.FTOL * sc for P in polys):
+                cand = np.nonzero(np.linalg.norm(cen - x, axis=1) - rad
+                                  <= K.FTOL * sc)[0] if polys else []
+                if not any(G.dist_point_facet(x, polys[j]) <= K.FTOL * sc
+                           for j in cand):
                     raise Bad("tags-boundary-misses-model-sample", name=name,
                               point=x.tolist(), after=where)
 
@@ -357,6 +365,9 @@ def _step(st, o, prop, probes, faults, catcher, skm):
         elif o["where"] == "interior":
             keys = [k for k in keys if len(s.ftab[k]) == 2] or keys
         sel = [keys[i] for i in _subset(len(keys), o["frac"], o["seed"])]
+        if len(sel) > FACET_TAG_CAP:
+            sel = [sel[i] for i in _subset(len(sel), FACET_TAG_CAP / len(sel),
+                                           o["seed"] + 7)]
         # find the designated facets in the mesh's own facet table
         fac = np.array(m.facets)
         lookup = {tuple(sorted(set(fac[:, j].tolist()))): j
@@ -1194,7 +1205,7 @@ def plan(prop, tier):
     if tier == "thorough":
         return {"runs": 60000, "budget_s": 900, "timeout_s": 300,
                 "selfcheck_runs": 12}
-    return {"runs": 2400, "budget_s": 70, "timeout_s": 180,
+    return {"runs": 1800, "budget_s": 75, "timeout_s": 180,
             "selfcheck_runs": 6}
 
 
